@@ -103,6 +103,9 @@ Fixpoint escape_str (s : string) : string :=
 Definition str_lit (s : string) (sp : span) : list tok :=
   [TLit (String """" (escape_str s ++ String """" EmptyString)) sp].
 
+(* every item followed by the separator: #(#xs,)* *)
+Definition term_by (sep : list tok) (xs : list (list tok)) : list tok := flat_map (fun x => (x ++ sep)%list) xs.
+
 (* comma-separated splice: #(#xs),* *)
 Fixpoint sep_by (sep : list tok) (xs : list (list tok)) : list tok :=
   match xs with
